@@ -10,9 +10,11 @@ VARIABLES phase, lst
 
 Prefix == S("example.com/m@v1.0.0/")
 PathsCore == <<S("a"), S("A"), S("b.go"), S("go.mod"), S("GO.MOD"), S("sub/go.mod"), S("sub/a.go"), S("vendor/p/x.go"), S("vendor/modules.txt"),
-               S("pkg/vendor/vendor.go"), S("pkg/vendor/p/x.go"), S("dir/f"), S("dirx/f"), S("DIR/g"), S("testdata/example.com/m@v1.0.0/m.go"), S("logo.mod"), S("x/a.go.mod"), S("dir/LICENSE"), S(".git"), S("testdata/.hg/hgrc"), S("b.go/c"), S("LICENSE"), S("a//b"), S("/abs"), S("con"), <<233>>, <<201>>>>
+               S("pkg/vendor/vendor.go"), S("pkg/vendor/p/x.go"), S("dir/f"), S("dirx/f"), S("DIR/g"), S("testdata/example.com/m@v1.0.0/m.go"), S("logo.mod"), S("x/a.go.mod"), S("dir/LICENSE"), S(".git"), S("testdata/.hg/hgrc"), S("b.go/c"), S("LICENSE"), S("a//b"), S("/abs"), S("con"), <<233>>, <<201>>,
+               \* a file two levels below a nested module; names with a tab, a carriage return at the end, DEL
+               S("sub/sub2/b.go"), <<97, 9, 98>>, <<73, 99, 111, 110, 13>>, <<97, 127>>>>
 PathsMore == <<S("Go.Mod"), S("sub/GO.MOD"), S("Sub/x"), S("vendor/x.go"), <<8490>>, S("k"), <<383>>, S("s"), S("aux.txt"), S("a~1"), S("a b"), S("."), S(".."), S("../a"),
-               S("a."), S(".hg_archival.txt"), S("a/b"), S("a/"), S("a/./b"), S("a/../b"), S("x*y"), S("sub/sub2/b.go"), S("vendor/modules.txt/x"), <<181>>, <<924>>, <<956>>, <<946>>, <<914>>,
+               S("a."), S(".hg_archival.txt"), S("a/b"), S("a/"), S("a/./b"), S("a/../b"), S("x*y"), S("vendor/modules.txt/x"), <<181>>, <<924>>, <<956>>, <<946>>, <<914>>,
                \* a nested module inside a vendor directory below the root, a reserved name with two extensions,
                \* a tree that repeats the module's own path@version
                S("pkg/vendor/go.mod"), S("aux.tar.gz")>>
@@ -42,9 +44,18 @@ CoreEntries == {Entry(Prefix \o Rel[i], "ok") : i \in {1, 2, 3, 5, 6, 7, 10, 15}
                \cup {Entry(Prefix \o S("a.go"), s) : s \in {"lie-more", "lie-zero", "huge"}}
                \cup {Entry(PrefixVariants[2] \o S("a.go"), "ok"), Entry(Prefix \o S("go.mod"), "big")}
 EV == IF MaxZip >= 4 THEN CoreEntries ELSE EntryVariants
+\* lists for the total-size rule: three files of 170 MiB in every order, alone and with a small file at every place (none of them
+\* can be created); two of them, and two around a small go.mod (both can)
+Thirds == <<File(S("a"), "regular", "third", FALSE, "none"), File(S("b.go"), "regular", "third", FALSE, "none"), File(S("dir/f"), "regular", "third", FALSE, "none")>>
+SmallOnes == {File(S("go.mod"), "regular", "small", FALSE, "none"), File(S("c"), "regular", "small", FALSE, "none")}
+Perm3 == {<<Thirds[i], Thirds[j], Thirds[k]>> : i, j, k \in 1..3} \ {x \in {<<Thirds[i], Thirds[j], Thirds[k]>> : i, j, k \in 1..3} : x[1] = x[2] \/ x[2] = x[3] \/ x[1] = x[3]}
+InsertAt(s, k, x) == SubSeq(s, 1, k) \o <<x>> \o SubSeq(s, k + 1, Len(s))
+SizeLists == Perm3 \cup {InsertAt(p, k, x) : p \in Perm3, k \in 0..3, x \in SmallOnes}
+             \cup {<<Thirds[1], Thirds[2]>>, <<Thirds[3], CHOOSE x \in SmallOnes : x.path = S("go.mod"), Thirds[1]>>}
 Init == phase = "hub" /\ lst = <<>>
-Next == \/ /\ phase = "hub" /\ MaxList > 0 /\ phase' = "files" /\ lst' \in {<<f>> : f \in AllFiles}
-        \/ /\ phase = "files" /\ Len(lst) < MaxList /\ phase' = "files" /\ \E f \in AllFiles : lst' = Append(lst, f)
+Next == \/ /\ phase = "hub" /\ Size = "sizes" /\ phase' = "files" /\ lst' \in SizeLists
+        \/ /\ phase = "hub" /\ Size # "sizes" /\ MaxList > 0 /\ phase' = "files" /\ lst' \in {<<f>> : f \in AllFiles}
+        \/ /\ phase = "files" /\ Size # "sizes" /\ Len(lst) < MaxList /\ phase' = "files" /\ \E f \in AllFiles : lst' = Append(lst, f)
         \/ /\ phase = "hub" /\ MaxZip > 0 /\ phase' = "zip" /\ lst' \in {<<e>> : e \in EV}
         \/ /\ phase = "zip" /\ Len(lst) < MaxZip /\ phase' = "zip" /\ \E e \in EV : lst' = Append(lst, e)
 
@@ -79,7 +90,7 @@ NoEscape == phase = "zip" => (UnzipOK(lst, Prefix) => \A n \in UnzipTree(lst, Pr
 
 Emit ==
     /\ phase = "files" => PrintT(ToJson([w |-> "modzip", k |-> "files", in |-> [files |-> lst],
-                                         exp |-> [valid |-> Cl.valid, omitted |-> Cl.omitted, invalid |-> Cl.invalid, createok |-> CreateOK(lst, G), ge124 |-> G]]))
+                                         exp |-> [valid |-> Cl.valid, omitted |-> Cl.omitted, invalid |-> Cl.invalid, createok |-> CreateOK(lst, G), sizeerr |-> Cl.sizeerr, ge124 |-> G]]))
     /\ phase = "zip" => PrintT(ToJson([w |-> "modzip", k |-> "zip", in |-> [entries |-> lst],
                                        exp |-> [valid |-> CheckZip(lst, Prefix).valid, invalid |-> CheckZip(lst, Prefix).invalid, sizeerr |-> CheckZip(lst, Prefix).sizeerr,
                                                 unzipok |-> UnzipOK(lst, Prefix), tree |-> UnzipTree(lst, Prefix)]]))
